@@ -1,5 +1,5 @@
 """C05 - geometric helpers of the viewshed sweep (the bounded line-of-sight oracle is built from these)."""
-from pyvc.contract import Contract
+from pyvc.contract import Contract, LoopSpec
 
 M = "xrspatial/viewshed.py"
 
@@ -74,4 +74,115 @@ Contract(
         "not (viewpoint_elev - elev < 0) or same(result, atan(abs(viewpoint_elev - elev) / sqrt(distance_to_viewpoint)) * 180 / pi + 90)",
     ],
     props=("C05",), axioms=("pi", "sqrt", "atan_range", "atan_sign_strict"),
+)
+
+# ---- the status structure: array-based red-black tree augmented with the subtree maximum of the nodes' minimum gradients
+_TT = {"tree_vals": "f2", "tree_nodes": "i2"}
+_TSH = ["tree_vals.shape[0] == N and tree_vals.shape[1] == 8 and tree_nodes.shape[1] == 4 and N >= 2"]
+_LETN = [("N", "tree_nodes.shape[0]")]
+
+Contract(M, "_find_value_min_value", {"tree_vals": "f2", "node_id": "int"},
+         lets=[("N", "tree_vals.shape[0]")],
+         requires=["tree_vals.shape[1] == 8 and N >= 2", "tn_ptr_ok(node_id, N)",
+                   "isfinite(tree_vals[node_id, 1]) and isfinite(tree_vals[node_id, 2]) and isfinite(tree_vals[node_id, 3])"],
+         result="float", neg_index=True,
+         ensures=["result <= tree_vals[node_id, 1] and result <= tree_vals[node_id, 2] and result <= tree_vals[node_id, 3]",
+                  "result == tree_vals[node_id, 1] or result == tree_vals[node_id, 2] or result == tree_vals[node_id, 3]",
+                  "same(result, tv_min_grad(tree_vals, node_id))"],
+         props=("C05",))
+
+
+def _unchanged_nodes(except_):
+    # every pointer / colour cell other than the listed (node, field) pairs is as before
+    ex = " or ".join("(v == nid(%s, N) and f == %d)" % (n, f) for n, f in except_)
+    return "all((%s) or tree_nodes[v, f] == old(tree_nodes[v, f]) for v in range(0, N) for f in range(0, 4))" % ex
+
+
+def rotate(fn, X, CH_DOWN, CH_UP):
+    """left rotate: X = x, its right child y comes up (CH_UP = 2 right, CH_DOWN = 1 left); right rotate mirrored"""
+    Y = "old(tree_nodes[%s, %d])" % (X, CH_UP)              # the child that comes up
+    A = "old(tree_nodes[%s, %d])" % (X, CH_DOWN)            # X's other child stays
+    B = "old(tree_nodes[%s, %d])" % (Y, CH_DOWN)            # the middle subtree changes parent
+    C = "old(tree_nodes[%s, %d])" % (Y, CH_UP)
+    P = "old(tree_nodes[%s, 3])" % X
+    yv = "tree_nodes[%s, %d]" % (X, CH_UP)
+    Contract(
+        M, fn, dict(_TT, root="int", **{X: "int"}), lets=_LETN,
+        requires=_TSH + [
+            "tn_node_ok(%s, N) and tn_node_ok(%s, N) and %s != %s" % (X, yv, X, yv),
+            "tn_ptr_ok(tree_nodes[%s, %d], N) and tn_ptr_ok(tree_nodes[%s, 3], N)" % (X, CH_DOWN, X),
+            "tn_ptr_ok(tree_nodes[%s, %d], N) and tn_ptr_ok(tree_nodes[%s, %d], N)" % (yv, CH_DOWN, yv, CH_UP),
+            # the four neighbours are other nodes (a tree): none of them is x or y
+            "tree_nodes[%s, %d] != %s and tree_nodes[%s, %d] != %s" % (X, CH_DOWN, X, X, CH_DOWN, yv),
+            "tree_nodes[%s, %d] != %s and tree_nodes[%s, %d] != %s" % (yv, CH_DOWN, X, yv, CH_DOWN, yv),
+            "tree_nodes[%s, %d] != %s and tree_nodes[%s, %d] != %s" % (yv, CH_UP, X, yv, CH_UP, yv),
+            "tree_nodes[%s, 3] != %s and tree_nodes[%s, 3] != %s" % (X, X, X, yv),
+            "tree_nodes[%s, 3] == -1 or tree_nodes[%s, 3] != tree_nodes[%s, %d]" % (X, X, yv, CH_DOWN),
+            "tv_row_finite(tree_vals, %s) and tv_row_finite(tree_vals, %s)" % (X, yv),
+            "isfinite(tree_vals[tree_nodes[%s, %d], 7]) and isfinite(tree_vals[tree_nodes[%s, %d], 7]) and "
+            "isfinite(tree_vals[tree_nodes[%s, %d], 7])" % (X, CH_DOWN, yv, CH_DOWN, yv, CH_UP),
+        ],
+        modifies=("tree_vals", "tree_nodes"), result="int", neg_index=True,
+        ensures=[
+            # CLRS rotation of the links
+            "tree_nodes[%s, %d] == %s and tree_nodes[%s, %d] == %s" % (X, CH_UP, B, Y, CH_DOWN, X),
+            "tree_nodes[%s, 3] == %s and tree_nodes[%s, 3] == %s and tree_nodes[%s, 3] == %s" % (X, Y, Y, P, B, X),
+            "tree_nodes[%s, %d] == %s and tree_nodes[%s, %d] == %s" % (X, CH_DOWN, A, Y, CH_UP, C),
+            "(%s != -1) or result == %s" % (P, Y),
+            "(%s == -1) or (result == root and ((old(tree_nodes[%s, 1]) == %s and tree_nodes[%s, 1] == %s and tree_nodes[%s, 2] == old(tree_nodes[%s, 2])) or "
+            "(old(tree_nodes[%s, 1]) != %s and tree_nodes[%s, 2] == %s and tree_nodes[%s, 1] == old(tree_nodes[%s, 1]))))"
+            % (P, P, X, P, Y, P, P, P, X, P, Y, P, P),
+            _unchanged_nodes([(X, CH_UP), (X, 3), (Y, CH_DOWN), (Y, 3), (B, 3), (P, 1), (P, 2)]),
+            # colours are not touched
+            "all(tree_nodes[v, 0] == old(tree_nodes[v, 0]) for v in range(0, N))",
+            # the augmented maxima of the two rotated nodes are right for their *new* children; nothing else in tree_vals changes
+            "is_max3(tree_vals[%s, 7], tv_min_grad(tree_vals, %s), old(tree_vals[%s, 7]), old(tree_vals[%s, 7]))" % (X, X, A, B),
+            "is_max3(tree_vals[%s, 7], tv_min_grad(tree_vals, %s), tree_vals[%s, 7], old(tree_vals[%s, 7]))" % (Y, Y, X, C),
+            "all((f == 7 and (v == %s or v == %s)) or same(tree_vals[v, f], old(tree_vals[v, f])) for v in range(0, N) for f in range(0, 8))" % (X, Y),
+            # ... and if the two nodes' maxima were right before, the subtree's maximum (now at the node that came up) is what it was,
+            # so the parent's maximum stays right
+            "(not (is_max3(old(tree_vals[%s, 7]), tv_min_grad(tree_vals, %s), old(tree_vals[%s, 7]), old(tree_vals[%s, 7])) and "
+            "is_max3(old(tree_vals[%s, 7]), tv_min_grad(tree_vals, %s), old(tree_vals[%s, 7]), old(tree_vals[%s, 7])))) or "
+            "tree_vals[%s, 7] == old(tree_vals[%s, 7])" % (X, X, A, Y, Y, Y, B, C, Y, X),
+        ],
+        props=("C05",), native={"skip": True},
+    )
+
+
+rotate("_left_rotate", "x", 1, 2)
+rotate("_right_rotate", "y", 2, 1)
+
+
+# ---- node creation: all eight value fields from `val` (max_grad starts at the smallest gradient), red/given colour, no links
+Contract(
+    M, "_create_tree_nodes", dict(_TT, x="int", val="f1", color="int"), lets=_LETN,
+    requires=_TSH + ["tn_node_ok(x, N)", "val.shape[0] == 8"],
+    modifies=("tree_vals", "tree_nodes"), neg_index=True,
+    ensures=[
+        "all(same(tree_vals[x, f], val[f]) for f in range(0, 7))",
+        "tree_vals[x, 7] == -9999999999999999999999.0",
+        "tree_nodes[x, 0] == color and tree_nodes[x, 1] == -1 and tree_nodes[x, 2] == -1 and tree_nodes[x, 3] == -1",
+        "all(v == x or same(tree_vals[v, f], old(tree_vals[v, f])) for v in range(0, N) for f in range(0, 8))",
+        "all(v == x or tree_nodes[v, f] == old(tree_nodes[v, f]) for v in range(0, N) for f in range(0, 4))",
+    ],
+    props=("C05",), native={"skip": True},
+)
+
+_PTRS = "all(tn_ptr_ok(tree_nodes[v, 1], N) and tn_ptr_ok(tree_nodes[v, 2], N) and tn_ptr_ok(tree_nodes[v, 3], N) for v in range(0, N - 1))"
+# ---- search: NIL or a node holding the key (partial correctness: the descent is not shown to terminate here)
+Contract(
+    M, "_search_for_node", dict(_TT, root="int", key="float"), lets=_LETN,
+    requires=_TSH + ["tn_ptr_ok(root, N)", _PTRS],
+    result="int", neg_index=True,
+    ensures=["result == -1 or (tn_node_ok(result, N) and not (key < tree_vals[result, 0]) and not (key > tree_vals[result, 0]))"],
+    loops={0: LoopSpec("while", inv=["tn_ptr_ok(cur_node, N)"])},
+    props=("C05",), native={"skip": True},
+)
+Contract(
+    M, "_tree_minimum", {"tree_nodes": "i2", "x": "int"}, lets=_LETN,
+    requires=["tree_nodes.shape[1] == 4 and N >= 2", "tn_node_ok(x, N)", _PTRS],
+    result="int", neg_index=True,
+    ensures=["tn_node_ok(result, N) and tree_nodes[result, 1] == -1"],
+    loops={0: LoopSpec("while", inv=["tn_node_ok(x, N)"])},
+    props=("C05",), native={"skip": True},
 )
